@@ -34,7 +34,7 @@ fn k_customize_read_plain() {
     kani::cover!(true, "reachable");
 }
 
-//@unit props=C09 label=S tier=thorough fn=chardat::CustomizeData(derive read) bound="27-byte record at the baseline of arr.dat with the race byte (offset 0) symbolic" stubs=fmt::format
+//@unit props=C09 label=S tier=parked fn=chardat::CustomizeData(derive read) bound="27-byte record at the baseline of arr.dat with the race byte (offset 0) symbolic" stubs=fmt::format
 //@desc race is decoded from byte 0: codes 1..8 map to the race with that code, every other code rejects the record
 #[kani::proof]
 #[kani::unwind(4)]
@@ -50,7 +50,7 @@ fn k_customize_read_race() {
     kani::cover!(true, "reachable");
 }
 
-//@unit props=C09 label=S tier=thorough fn=chardat::CustomizeData(derive read) bound="27-byte record at the baseline with the gender byte (offset 1) and the tribe byte (offset 4) symbolic" stubs=fmt::format
+//@unit props=C09 label=S tier=parked fn=chardat::CustomizeData(derive read) bound="27-byte record at the baseline with the gender byte (offset 1) and the tribe byte (offset 4) symbolic" stubs=fmt::format
 //@desc gender is decoded from byte 1 (0..1) and tribe from byte 4 (1..16); every other code rejects the record
 #[kani::proof]
 #[kani::unwind(4)]
